@@ -83,3 +83,31 @@ def evalModel [Zero R] [One R] [Add R] [Sub R] [Neg R] [Mul R] [BEq R]
   | .pos x => do let a ← evalModel rc rn env x; pure (Arr.pos rc rn a)
   | .pow x k => do let a ← evalModel rc rn env x; Arr.pow rc rn a k
 end Np
+
+namespace Np
+open Shape
+variable {R : Type}
+
+/-- `power` with an *array* of exponents: element `i` of the broadcast result is `a[i] ** k[i]`. Modelled as the sum,
+over the distinct exponents `d`, of the `d`-th power of the broadcast base masked to the positions where the exponent
+is `d` (denotationally what raising each broadcast element separately gives). -/
+def Arr.powArr [Zero R] [One R] [Add R] [Mul R] [BEq R] (rc rn : Bool) (a : Arr R) (kshape : List Nat) (ks : List Nat) :
+    Except Err (Arr R) :=
+  match bshape a.shape kshape with
+  | none => .error .valueError
+  | some s =>
+    match a.bcast s, mkIndexMap (size s) (size kshape) (bindex kshape s) with
+    | some pa, some σk =>
+      let kk : Fin (size s) → Nat := fun i => ks.getD (σk i).val 0
+      let ds := sortDedup natLt ((List.finRange (size s)).map kk)
+      let zero : Poly (Vec R (size s)) := { names := pa.names.take 1, terms := [((pa.names.take 1).map fun _ => 0, 0)] }
+      let r := ds.foldl (fun (acc : Option (Poly (Vec R (size s)))) d =>
+        match acc, powS rc rn pa d with
+        | some s0, some p =>
+          some (Np.add rc rn s0 (mapCoef (fun v => Vec.ofFn fun i => if kk i == d then v.get i else 0) p))
+        | _, _ => none) (some zero)
+      match r with
+      | some p => .ok ⟨s, p⟩
+      | none => .error .uninit
+    | _, _ => .error .internal
+end Np
